@@ -42,6 +42,9 @@ def _verify_one(key: str) -> Dict[str, Any]:
              "time": round(o.time, 4), "line": o.line,
              "path": [n for n in o.st.notes if not n.startswith("call ")][-40:]}
         if not good and o.result == "sat" and not o.must_be_sat:
+            kid = known_region(o, r, key)
+            if kid is not None:
+                d["known"] = kid
             d["model"] = rp.describe_model(o)
             d["replay"] = rp.try_replay(c, o, r)
         obs.append(d)
@@ -50,6 +53,33 @@ def _verify_one(key: str) -> Dict[str, Any]:
             "lineno": r.lineno, "assumed": {k: v.why for k, v in r.used_assumed.items()},
             "contracts_used": sorted(r.used_contracts), "inlined": r.inlined, "feas_checks": r.feas_checks,
             "time": time.time() - t0}
+
+
+def known_region(o, r, key: str) -> Optional[str]:
+    """A failed obligation is a KNOWN finding only if EVERY counter-model lies inside the region recorded for it:
+    the obligation is re-solved with the negation of the region; unsat => known, otherwise a different violation
+    (the obligation's model is replaced by one outside the region)."""
+    import z3
+
+    from pyvc.verify import _mk_solver
+
+    for k in load_known():
+        if k.get("status") != "known" or not k.get("region") or not re.search(k["obligation"], o.name):
+            continue
+        try:
+            fi = r.ex and __import__("pyvc.front", fromlist=["x"]).find_function(key)
+            entry = o.st.old or o.st
+            reg = r.ex.spec_bool(o.st, f"old({k['region']})", dict(entry.locals), fi, old=entry)
+        except Exception:
+            continue
+        s = _mk_solver(o, 20000, True)
+        s.add(z3.Not(reg))
+        res = s.check()
+        if res == z3.unsat:
+            return k["id"]
+        if res == z3.sat:
+            o.model = s.model()
+    return None
 
 
 def load_known() -> List[Dict[str, Any]]:
@@ -61,7 +91,7 @@ def load_known() -> List[Dict[str, Any]]:
 
 def match_known(pid: str, ob: Dict[str, Any], known: List[Dict[str, Any]]) -> Optional[Dict[str, Any]]:
     for k in known:
-        if k.get("status") != "known" or pid not in k.get("properties", [k.get("property")]):
+        if k.get("status") != "known" or pid not in k.get("properties", [k.get("property")]) or k.get("region"):
             continue
         if not re.search(k["obligation"], ob["name"]):
             continue
@@ -112,6 +142,7 @@ def main(argv=None) -> int:
     assumed: Dict[str, str] = {}
     not_verified: List[str] = []
     covers = 0
+    cover_unknown: List[str] = []
     for r in results:
         funcs.append({"key": r["key"], "line": r.get("lineno"), "source_hash": r.get("source_hash"), "paths": r.get("paths"),
                       "obligations": len(r["obligations"]), "status": r["status"], "exec_s": r.get("time_exec"),
@@ -137,12 +168,17 @@ def main(argv=None) -> int:
                     samples.append({"obligation": o["name"], "clause": o["info"][:200], "verdict": "unsat (discharged)", "backend": o["backend"]})
                 continue
             if o["kind"] == "cover":
-                broken.append(f"vacuous: {o['name']} ({o['result']})")
+                if o["result"] == "unsat":
+                    broken.append(f"vacuous: {o['name']} (the assumptions at this point are contradictory)")
+                else:
+                    # reachability could not be decided within the budget: the guard is inconclusive, not failed
+                    n_ob -= 1
+                    cover_unknown.append(o["name"])
                 continue
             if o["result"] == "unknown" or o["result"] is None:
                 undecided.append(f"{o['name']}: solver returned {o['result']}")
                 continue
-            k = match_known(pid, o, known)
+            k = next((kk for kk in known if kk["id"] == o.get("known") and pid in kk.get("properties", [])), None) if o.get("known") else match_known(pid, o, known)
             if k is not None:
                 known_hits.append((k, o))
             else:
@@ -167,8 +203,13 @@ def main(argv=None) -> int:
 
     # ---------------------------------------------------------------- report
     os.makedirs(os.path.join(VERIF, "replays", pid), exist_ok=True)
+    printed = set()
     for k, o in known_hits:
-        print(f"KNOWN-FINDING: property={pid} {k['what']} [{o['name']}]")
+        if k["id"] in printed:
+            continue
+        printed.add(k["id"])
+        names = [oo["name"].split("::", 2)[-1] for kk, oo in known_hits if kk["id"] == k["id"]]
+        print(f"KNOWN-FINDING: property={pid} {k['id']}: {k['what']} [obligations: {', '.join(names)}]")
     seen_known = set()
     for key, o in violations:
         fn = re.sub(r"[^A-Za-z0-9_.-]+", "_", o["name"])[-150:]
@@ -192,7 +233,7 @@ def main(argv=None) -> int:
     evidence = {
         "property_id": pid, "tier": "thorough" if args.tier == "thorough" else "quick", "seed": seed, "level": "proof",
         "coverage": {
-            "obligations": n_ob, "discharged": n_ok,
+            "obligations": n_ob - len(known_hits), "discharged": n_ok, "known_finding_obligations": len(known_hits),
             "checker_cmd": f"./check {pid} --tier {args.tier}",
             "trusted_base": ["pyvc encoding of the Python subset (DESIGN.md 3; cross-checked by canaries)", "z3 4.x / cvc5 1.0",
                              "CPython 3.12", "assumed contracts listed under 'assumptions'",
@@ -201,7 +242,7 @@ def main(argv=None) -> int:
             "functions_under_contract": funcs, "by_backend": by_backend, "covers": covers,
             "not_verified": not_verified, "samples": samples, "known_findings_matched": [k["id"] for k, _ in known_hits],
             "failed_obligations": [o["name"] for _, o in violations], "undecided": undecided[:50],
-            "structural_obligations": len(struct),
+            "structural_obligations": len(struct), "covers_undecided": cover_unknown,
         },
         "assumptions": sorted(f"{k}: {v}" for k, v in assumed.items()) + structural.assumptions(pid),
         "wall_s": round(wall, 2), "violations": len(violations),
